@@ -254,7 +254,7 @@ def run_shard(spec, ctx):
                     break
                 p = progen.gen_program(rng, {'depth': 2, 'max_stmts': 2, 'top_stmts': (400, 250)[i % 2], 'stat_bias': bias, 'goto': False,
                                              'exotic_numbers': True, 'exotic_strings': True, 'multiline_strings': False,
-                                             'table_methods': 0.3})
+                                             'table_methods': 0.3, 'names_extra': [b'stat_%d' % k for k in range(500)]})
                 src = layout.render(p, rng, style=('lines', 'normal', 'tight')[i % 3])
                 if src is None:
                     ctx.monitor('generator_rejects')
@@ -263,6 +263,7 @@ def run_shard(spec, ctx):
                 ctx.feature('big_programs')
                 ctx.monitor('big_program_chars', len(src))
                 names = sorted({p.toks[k][1] for k in p.names})
+                ctx.monitor('big_program_distinct_identifiers', len(names))
                 check_program(ctx, src, p, CONFIGS[i % 3], names[::3], workdir, i % 2 == 0)
         finally:
             shutil.rmtree(workdir, ignore_errors=True)
